@@ -18,6 +18,7 @@ OBLIGATIONS = [
     (P + "torn_counterexample", "the full statement TornLoadFull is FALSE of the model of the code (known finding crc32-torn-mixture, witness 1)"),
     (P + "torn_counterexample_values", "witness 1 loads as (new deadline, new[0..20]++old[20..]), neither new nor old; it is a TornNew collision"),
     (P + "torn_counterexample_sector", "witness 2: pure 512-byte sector tear of a completed save of 600 bytes loads as a mixture"),
+    (P + "torn_mixture_for_every_payload", "scope of the finding: EVERY payload >= 6 bytes and every tear position 1..|d|-5 has an adversarial earlier value whose torn mixture loads (CRC-32 affine; proved in general)"),
     (P + "crash_wellformed", "crash states are again well-formed earlier states (theorems compose along histories)"),
     (P + "saveComplete_wellformed", "so are complete saves"),
     (P + "saveComplete_is_crash", "the complete save is a crash state (non-vacuity of Crash)"),
@@ -163,6 +164,21 @@ def crash_case(rng, big, S=None, d=None, k=None, j=None, mask=None, oldops=None,
     return " ; ".join(ops), meta
 
 
+def adv_case(rng):
+    """the construction of Props.torn_mixture_for_every_payload on a random payload: model and code must agree on it
+    (tie only: these are further instances of the known finding, so no judge is applied to them)"""
+    n = rng.choice((6, 7, 40, 300, 600, 1300))
+    d = rb(rng, n)
+    j = rng.randrange(1, n - 4)
+    delta = bytearray(n)
+    delta[0] = 1
+    delta[j:j + 5] = bytes([1, 0x96, 0x30, 0x07, 0x77])
+    o = bytes(a ^ b for a, b in zip(d, delta))
+    sid = rng.choice(SIDS)
+    line = f"now 1000 ; save {sid} 2000 {hexs(o)} ; probe {sid} ; csave {sid} 3000 {hexs(d)} 1 {j} 512 all ; ls ; load {sid} ; ls"
+    return line, {"kind": "adv", "expect": f"ok 3000 {hexs(d[:j] + o[j:])}"}
+
+
 def gen_name(rng):
     r = rng.random()
     hexd = "0123456789abcdefABCDEF"
@@ -303,6 +319,8 @@ def gen_cases(c, scale):
         cases.append(crash_case(rng, big))
     for _ in range(4 * scale):
         cases.append(crash_case(rng, 70000))
+    for _ in range(12 * scale):
+        cases.append(adv_case(rng))
     for _ in range(800 * scale):
         cases.append(gc_case(rng))
     for _ in range(400 * scale):
@@ -521,6 +539,15 @@ def main():
         c.extra_cov["crash_scripts_judged"] = sum(1 for m in metas if m.get("kind") == "crash" and m["judge"])
         c.extra_cov["crash_scripts_torn"] = sum(1 for m in metas if m.get("kind") == "crash" and m["torn"])
         bad = judge(c, model, cases, metas, out_i)
+        # the python copy of the general construction must be the collision the Lean theorem constructs (model side)
+        nadv = 0
+        for k, m in enumerate(metas):
+            if m.get("kind") == "adv" and k < len(out_m):
+                nadv += 1
+                if m["expect"] not in out_m[k].split(" | "):
+                    c.broke("adversarial construction", f"model does not load the constructed mixture: {cases[k][:300]} -> {out_m[k][:300]}")
+                    break
+        c.extra_cov["adversarial_constructions_tied"] = nadv
         wit = set()
         if os.path.exists(model):
             rc, wl, _ = c.run_lines(model, ["witness 1", "witness 2"])
